@@ -89,7 +89,7 @@ CHECKS = {
             "All eight conversion functions over boundary u64/u128/i128 values x decimals 0..60 and beyond, and Decimal->integer over crafted (mantissa, scale, decimals): supported inputs round-trip exactly, other forward conversions only truncate, Decimal->integer is exact or an error, nothing panics.",
             "alphabets only; rounding of user decimals with excess fraction digits is by design and only counted", "§5 C43"),
     "C41": ("mc-utils", E1, "exhaustive enumeration (E1) of all short sequences of instruction groups x limits x flags against label bookkeeping and real serialization",
-            "Every sequence of up to 3 (thorough 4) parallel groups from 9 shapes x instruction limits x size limits x payer-change flag x lookup table: after add+optimize the labelled instructions are neither dropped, duplicated nor reordered, atomic groups unsplit, merges only between mergeable groups, payer rule kept, limits respected and the size estimate is not below the bincode size of the built transaction.",
+            "Every sequence of up to 3 (thorough 4) parallel groups from 16 shapes (incl. empty groups and data lengths around the compact-u16 limit) x instruction limits x size limits x payer-change flag x lookup table: after add+optimize the labelled instructions are neither dropped, duplicated nor reordered, atomic groups unsplit, merges only between mergeable groups, payer rule kept, limits respected and the size estimate is not below the bincode size of the built transaction.",
             "shapes and limits listed in the evidence", "§5 C41"),
     "C22": ("mc-store", MC, "explicit-state BFS (E3) over real store instructions in the in-process runtime, invariant after every successful instruction",
             "Two machines. (1) All interleavings to the stated depth of create/execute/close of deposits and withdrawals by owners, the keeper and a stranger, fee claims and keeper transfers, clock advances and feed re-publication over two markets sharing both vaults, also from fabricated position-like start states. (2) Real position orders (prepare/create/execute/close of market increase and decrease orders of two traders on both markets), market swap orders, shifts between the markets, liquidations (solvent and insolvent), fee claims, price sets and clock advances, from the empty world and from a state with both traders' positions open. After every successful instruction each market's recorded balances cover liquidity+impact+fees and collateral, the collateral-sum and open-interest pools equal the sums over the position accounts, and the markets sharing a vault do not record more than it holds.",
@@ -118,9 +118,9 @@ CHECKS = {
     "C20": ("mc-store", MC, "E1 matrices plus explicit-state BFS (E3-light) over real store instructions against the keeper permission policy",
             "Every MarketConfigKey and MarketConfigFlag x {not updatable, updatable} x {market keeper, config keeper, stranger} through update_market_config(_flag) and set_market_config_updatable; BFS over permission changes, updates by every actor, per-owner config buffers with updatable/mixed/empty entries, buffer application and clock advances across expiry; rejected calls leave the market account byte-identical.",
             "svm-lite runtime trusted; two keys and one flag in the history alphabet", "§5 C20"),
-    "C21": ("mc-store", MC, "explicit-state BFS (E2) over revertible operations on a real Market account through RevertibleMarket",
-            "Every sequence of operations (begin, up to two writes with a full read after each, commit or abandon) to the stated depth for ten runs whose write alphabets together cover all pool kinds, the clocks and other-state fields: reads at begin equal storage, reads after writes equal the overlay, storage changes only at commit and then equals the overlay; state key = full account bytes.",
-            "operations cannot overlap (account borrow); RevertibleLiquidityMarket mint/burn deferral not covered", "§5 C21"),
+    "C21": ("mc-store", MC, "explicit-state BFS (E2) over revertible operations on a real Market account through RevertibleMarket, plus BFS (E3) over real deposit/withdrawal/shift instructions for the mint/burn deferral",
+            "Every sequence of operations (begin, up to two writes with a full read after each, commit or abandon) to the stated depth for ten runs whose write alphabets together cover all pool kinds, the clocks and other-state fields: reads at begin equal storage, reads after writes equal the overlay, storage changes only at commit and then equals the overlay; state key = full account bytes. Program part: all interleavings to the stated depth of create/execute/close of deposits, withdrawals and shifts (half of them abandoned after their writes), clock advances and re-pricing: abandoned operations change no stored state, supply or holding and are invisible to every following operation (differential); committed ones equal the same operation on a plain in-memory market.",
+            "operations cannot overlap (account borrow); mint/burn deferral exercised through real instructions, not a direct handle", "§5 C21, §10.2"),
     "C33": ("mc-store", MC, "explicit-state BFS (E3) over the real user/referral instructions against a reference relation",
             "All sequences of prepare_user, initialize_referral_code, set_referrer (also with a forged referrer account), transfer, cancel and accept by three users over two codes to the stated depth (the reference state space is closed); outcomes and account contents compared with the reference; write-once referrer, no self referral, exactly one holder per code and ownership moving only on acceptance are evaluated on the accounts after every step.",
             "svm-lite runtime trusted", "§5 C33"),
